@@ -700,6 +700,9 @@ func TestC03(t *testing.T) {
 	core.DFS(r, core.Check[assocCase]{Name: "small-histories", Gen: genSmallAssoc("catalog", r.N(3, 4)), Exec: execAssocCase, NoJournal: true}, 0)
 	core.DFS(r, core.Check[longLivedCase]{Name: "long-lived-instance", Gen: genLongLived([]string{"Catalog"}, r.N(150000, 1200000)), Exec: execLongLived("C03"), NoJournal: true, HangLimit: 300 * time.Second}, 0)
 	core.DFS(r, core.Check[lookupCase]{Name: "class-lookups", Gen: genLookups([]string{"Catalog"}), Exec: execLookups("C03"), NoJournal: true}, 0)
+	core.DFS(r, core.Check[keysInUseCase]{Name: "key-sequence-in-use", Gen: func(s core.Source) keysInUseCase {
+		return keysInUseCase{Fn: core.Pick(s, []string{"Catalog.RemoveValues", "Catalog.GetValues"}, "fn"), Rounds: r.N(3000, 30000)}
+	}, Exec: execKeysInUse("C03"), NoJournal: true, HangLimit: 300 * time.Second}, 0)
 }
 
 // small enumerated histories: keys 0..2, values 1..2, no constructor data
